@@ -9,7 +9,7 @@ B. the property on the implementation's own transcripts, every writable format: 
 """
 import collections, os, re, shutil, tempfile, time
 
-from .. import scripts as S, worldcamp as WC, formats
+from .. import scripts as S, worldcamp as WC, formats, fdworld
 from ..core import Violation, modules_for
 
 MODULES = modules_for("C19")
@@ -518,6 +518,12 @@ def report_finding(ctx, env, f, n):
 
 def replay(ctx, path):
     text = open(path).read()
+    if "c19-fdworld" in text and "--- script" in text:
+        tmp = tempfile.mkdtemp(prefix="c19-", dir="/var/tmp")
+        try:
+            return fdworld.replay(ctx, path, {"TMPDIR": tmp, "SFH_SCRATCH": tmp})
+        finally:
+            shutil.rmtree(tmp, ignore_errors=True)
     if "--- solo" not in text:
         return ctx.replay_script(path)
     head, rest = text.split("--- solo", 1)
@@ -605,6 +611,9 @@ def run(ctx):
             found_input = True
             report_finding(ctx, env, f, n_rep)
         ctx.notes["B_findings"] = len(findings)
+        # ---- C: real descriptors (sf_open / sf_open_fd, SD2 resource fork, ALAC spool file) next to sentinels, every open/close order ----
+        if fdworld.run(ctx, env):
+            found_input = True
         leftovers = sorted(os.listdir(tmp)) if os.path.isdir(tmp) else []
         ctx.notes["tmpdir_leftovers"] = leftovers[:10]
         if corr and not found_input:
